@@ -41,32 +41,33 @@ void ares_cancel(ares_channel_t *channel)
 
   if (ares_llist_len(channel->all_queries) > 0) {
     ares_llist_node_t *node = NULL;
-    ares_llist_node_t *next = NULL;
 
-    /* Swap list heads, so that only those queries which were present on entry
-     * into this function are cancelled. New queries added by callbacks of
-     * queries being cancelled will not be cancelled themselves.
+    /* Mark the queries which are present on entry into this function, only
+     * those are cancelled. New queries added by callbacks of queries being
+     * cancelled will not be cancelled themselves.  This needs no memory, so
+     * cancelling can't fail.
      */
-    ares_llist_t      *list_copy = channel->all_queries;
-    channel->all_queries         = ares_llist_create(NULL);
-
-    /* Out of memory, this function doesn't return a result code though so we
-     * can't report to caller */
-    if (channel->all_queries == NULL) {
-      channel->all_queries = list_copy; /* LCOV_EXCL_LINE: OutOfMemory */
-      goto done;                        /* LCOV_EXCL_LINE: OutOfMemory */
+    for (node = ares_llist_node_first(channel->all_queries); node != NULL;
+         node = ares_llist_node_next(node)) {
+      ares_query_t *query   = ares_llist_node_val(node);
+      query->cancel_pending = ARES_TRUE;
     }
 
-    node = ares_llist_node_first(list_copy);
-    while (node != NULL) {
-      ares_query_t        *query;
+    /* New queries are always appended, so the marked queries stay in front of
+     * them and the first one not marked ends the run.  Always restart from the
+     * head rather than remembering a position in the list: a callback may
+     * itself call ares_cancel(), which gets rid of the remaining marked
+     * queries (and of whatever else exists by then). */
+    while ((node = ares_llist_node_first(channel->all_queries)) != NULL) {
+      ares_query_t        *query = ares_llist_node_val(node);
       ares_callback_dnsrec callback;
       void                *arg;
 
-      /* Cache next since this node is being deleted */
-      next = ares_llist_node_next(node);
+      if (!query->cancel_pending) {
+        break;
+      }
 
-      query                   = ares_llist_node_claim(node);
+      ares_llist_node_claim(node);
       query->node_all_queries = NULL;
 
       /* Release the query before invoking its callback.  The callback may
@@ -79,11 +80,7 @@ void ares_cancel(ares_channel_t *channel)
 
       /* NOTE: its possible this may enqueue new queries */
       callback(arg, ARES_ECANCELLED, 0, NULL);
-
-      node = next;
     }
-
-    ares_llist_destroy(list_copy);
   }
 
   /* See if the connections should be cleaned up */
@@ -91,6 +88,5 @@ void ares_cancel(ares_channel_t *channel)
 
   ares_queue_notify_empty(channel);
 
-done:
   ares_channel_unlock(channel);
 }
